@@ -33,6 +33,7 @@ type Oblig struct {
 	Expect  string // "unsat" normally (goal valid), "sat" for vacuity probes
 	Inputs  []ModelVar
 	Extra   []string // additional assertions specific to this obligation (e.g. instantiations)
+	clauseIdx int
 	vc      *FnVC
 }
 
@@ -104,6 +105,8 @@ type FnVC struct {
 	havocked      map[string]bool
 	defers        []*ssa.Defer
 	compType      map[string]compTy
+	globalGoNames map[string]goName
+	pendingDistinct []string
 }
 
 type pureDef struct {
@@ -141,6 +144,7 @@ func newFnVC(prog *Prog, fn *ssa.Function, fc *FuncContract) *FnVC {
 	vc.subrefDeclared = map[string]bool{}
 	vc.locs = map[ssa.Value]Loc{}
 	vc.compType = map[string]compTy{}
+	vc.globalGoNames = map[string]goName{}
 	vc.closures = map[ssa.Value]*ssa.MakeClosure{}
 	vc.usedContracts = map[string]*FuncContract{}
 	vc.havocked = map[string]bool{}
